@@ -132,6 +132,55 @@ def nontrivial(case, res):
     return case["meta"].get("full", False)
 
 
+def extra(rng, tier):
+    """f64: cubics with small integer coefficients in the variable u = x / unit, sampled at dyadic u (exact samples), on axes in
+    ordinary and in extreme units (unit = 2^k, |k| up to 470: squares of interval lengths stay finite, third powers do not).
+    NotAKnot reproduces the cubic, Natural / Linear the straight line, up to rounding: held to a generous relative tolerance."""
+    import math
+    import vlib
+    lines, wants, tols = [], [], []
+    for _ in range(gen.N(tier, 60, 1500)):
+        kind = rng.choice(["nak", "nak", "nat", "lin"])
+        deg = 3 if kind == "nak" else 1
+        n = rng.choice([4, 5, 7, 9]) if kind == "nak" else rng.choice([2, 3, 5]) if kind == "lin" else rng.choice([3, 4, 6])
+        us = sorted({rng.randint(-64, 64) / 8 for _ in range(3 * n)})
+        if len(us) < n:
+            continue
+        i0 = rng.randrange(len(us) - n + 1)
+        us = us[i0:i0 + n]
+        k = rng.choice([0, 0, 0, rng.randint(100, 340), -rng.randint(100, 340), rng.randint(340, 470), -rng.randint(340, 470)])
+        unit = 2.0 ** k
+        coef = [rng.randint(-5, 5) for _ in range(deg + 1)]
+        P = lambda u: sum(c * u ** i for i, c in enumerate(coef))
+        xs = [u * unit for u in us]
+        flat = [float(P(Fr(u))) for u in us]
+        ext = rng.random() < 0.5
+        span = us[-1] - us[0]
+        vs = [us[0] + span * rng.randint(0, 64) / 64 for _ in range(5)] + ([us[0] - span / 4, us[-1] + span / 8] if ext else [])
+        qs = [v * unit for v in vs]
+        strat = ("lin", ext) if kind == "lin" else ("spl", ext, kind)
+        lines.append(i1_line("F", xs, [n], flat, strat, e_array("F", [len(qs)], qs)))
+        wants.append([float(P(Fr(v))) for v in vs])
+        hs = [b - a for a, b in zip(us, us[1:])]
+        tols.append(1e-9 * (max(abs(v) for v in flat) + 1.0) * (max(hs) / min(hs)) ** 2 * (1 + 100 * ext))
+    outs = vlib.run_impl_only(ID, lines, tag="f64poly")
+    fails, worst = [], 0.0
+    for line, out, want, tol in zip(lines, outs, wants, tols):
+        r = vlib.Result(out)
+        if r.kind != "ok":
+            fails.append({"line": line, "impl": out[:200], "required": "queries must be answered"})
+            continue
+        for g, w in zip(r.floats(), want):
+            err = abs(g - w)
+            if not math.isfinite(g) or err > tol:
+                fails.append({"line": line, "impl": out[:200],
+                              "required": f"f64: the polynomial's value {w} must be reproduced up to rounding, got {g} (error {err:.3e} > tolerance {tol:.3e})"})
+                break
+            worst = max(worst, err / tol)
+    return {"evaluations": len(lines), "nontrivial": len(lines), "failures": fails[:20], "hist": {"f64_polynomial_cases": len(lines)},
+            "notes": [f"worst f64 error / tolerance = {worst:.3e}"]}
+
+
 def oracle(case, res):
     want = case["meta"]["want"]
     if res.kind != "ok":
